@@ -4,8 +4,8 @@ CONSTANTS
   Prefixes <- SimPrefixes
   Ifaces <- Ifs
   IfOf <- IfAll
-  T = 25
-  G = 70
+  T = 6
+  G = 9
   R = 2
   Strict = FALSE
   Msgs <- SimMsgs
@@ -14,11 +14,11 @@ CONSTANTS
   LocalCfg <- SimLocal
   ConnCfg <- SimConn
   LocalSrc = "s1"
-  IfNone = TRUE
+  IfNone = FALSE
   Mtu = 124
   Queries <- SimQueries
   D = 60
 INIT Init
-NEXT Next
+NEXT SimNext
 INVARIANT Export
 CHECK_DEADLOCK FALSE
